@@ -29,6 +29,10 @@ pub struct C16Replay {
     pub obs_seed: u64,
     pub hash_seed: u64,
     pub enumerate_sink: bool,
+    /// when set: the tree is parse_fragment of this text (several top-level elements, top-level
+    /// text) instead of the document
+    #[serde(default)]
+    pub fragment: Option<String>,
 }
 
 // ------------------------------------------------------------------ simulated sink
@@ -623,8 +627,12 @@ fn run_replay(r: &C16Replay, stats: &mut Stats, sample: Option<&mut Vec<String>>
     let mut x = Xot::new();
     let mut coin = rng.fork();
     let mut cdata = move || coin.pct(10);
-    let text = absdoc::render_doc(&r.doc, false, &mut cdata);
-    let doc = match x.parse(&text) {
+    let text = match &r.fragment {
+        Some(t) => t.clone(),
+        None => absdoc::render_doc(&r.doc, false, &mut cdata),
+    };
+    let parsed = if r.fragment.is_some() { x.parse_fragment(&text) } else { x.parse(&text) };
+    let doc = match parsed {
         Ok(d) => d,
         Err(e) => return Some(v("write-differs", format!("harness: rendering does not parse: {:?} {:?}", text, e))),
     };
@@ -814,7 +822,12 @@ impl PropEngine for C16Engine {
         let mut cfg = GenCfg::swarm(&mut rng);
         cfg.xml_id_pct = cfg.xml_id_pct.min(10);
         let doc = absdoc::gen_doc(&mut rng, &cfg);
-        let r = C16Replay { doc, obs_seed: rng.next(), hash_seed: rng.next(), enumerate_sink: run_index % 3 == 0 };
+        let mut r = C16Replay { doc, obs_seed: rng.next(), hash_seed: rng.next(), enumerate_sink: run_index % 3 == 0, fragment: None };
+        if run_index % 5 == 4 {
+            let mut frng = Rng::new(rng.next());
+            r.fragment = Some(crate::gen::gen_xml_text(&mut frng, true));
+            stats.inc("swarm/c16_fragment_with_several_top_level_nodes");
+        }
         stats.runs += 1;
         let mut sample = vec![];
         let res = run_replay(&r, stats, Some(&mut sample));
